@@ -366,9 +366,16 @@ def run(chk):
                               maximal_only=False, timeout=900)
     chk.add_tlc(r)
     if quick:
-        # the quick tier replays every third behaviour (offset by the seed); thorough replays all of a deeper run
+        # the quick tier replays every third behaviour (offset by the seed); thorough replays all, over four levels,
+        # plus simulated behaviours of depth 6 (the exhaustive set of depth 4 has 2.3 million members)
         behs = behs[chk.seed % 3::3]
         chk.notes['routing_behaviours_sampled'] = '1 of 3'
+    else:
+        r2, deep = emit_behaviours('Gen_Logging', 'Gen_Logging_sim.cfg', maximal_only=False, timeout=900,
+                                   simulate='num=20000', depth=7, seed=chk.seed + 1, workers=1)
+        chk.add_tlc(r2)
+        behs = behs + deep
+        chk.notes['routing_behaviours_simulated_depth6'] = len(deep)
     res = pool_map(_replay_routing, behs)
     for beh, bad in zip(behs, res):
         chk.impl_traces += 1
